@@ -11,7 +11,7 @@
    "emitted at d" reads "emitted by the firing of the timer scheduled with delay
    d".  The K2 correspondence fires every timer exactly when due. *)
 From RxVerif Require Import Base.Prelude Ops.Machine Ops.MachineFacts Ops.Multi Ops.MultiFacts Ops.MultiCase
-  Ops.Sources Ops.SourcesFacts.
+  Ops.Sources Ops.SourcesFacts Ops.SourcesFacts2.
 
 (* ---- range ---------------------------------------------------------------- *)
 (* Python's range: the closed form by length (CPython's get_len_of_range) IS the
@@ -32,15 +32,26 @@ Theorem C37_py_range_bound : forall a b s x, s <> 0 -> In x (py_range a b s) ->
 Proof. exact py_range_bound. Qed.
 Print Assumptions C37_py_range_bound.
 
-(* for ALL integers start, stop, step (empty ranges, negative steps): firing i
+(* for ALL integers start, stop and every step <> 0 (empty ranges, negative steps): firing i
    emits the i-th element of the Python range, the firing after the last one
-   completes *)
-Theorem C37_range_emits_python_range : forall a b s,
+   completes.  step = 0 is OUTSIDE: Python's range() -- hence the factory, before anything can be
+   subscribed -- raises ValueError, while [range_len] is totalised to 0 there
+   (C37_range_zero_step_is_outside: without the hypothesis the statement would read "no element, then
+   completion" for the wrong reason) *)
+Theorem C37_range_emits_python_range : forall a b s, s <> 0 ->
   let n := Z.to_nat (range_len a b s) in
   temitted (fst (run (x_range a b s) (tick_ins 0 (zeros (S n)))))
   = nexts (indexed 1 (py_range a b s)) ++ [(S n, Done)].
-Proof. exact range_spec. Qed.
+Proof. exact range_spec_nonzero_step. Qed.
 Print Assumptions C37_range_emits_python_range.
+
+Theorem C37_range_zero_step_is_outside : forall a b, range_len a b 0 = 0 /\ py_range a b 0 = [].
+Proof. exact range_zero_step_totalised. Qed.
+Print Assumptions C37_range_zero_step_is_outside.
+
+Example C37_range_zero_step_example :
+  range_len 0 5 0 = 0 /\ emitted (fst (run (x_range 0 5 0) (tick_ins 0 (zeros 1)))) = [Done].
+Proof. vm_compute. auto. Qed.
 
 (* the factory's argument conventions: range(a), range(a, b), range(a, b, s),
    range(a, None, s) *)
@@ -126,6 +137,39 @@ Theorem C37_generate_with_relative_time : forall (c : Z -> bool) (f d : Z -> Z) 
 Proof. exact gwrt_spec. Qed.
 Print Assumptions C37_generate_with_relative_time.
 
+(* instants: when every timer fires exactly when due ([on_time]: the timer scheduled during firing k
+   with delay dl fires at the instant of firing k plus max(dl, 0); t0 = the subscription instant), the
+   firing that emits the i-th state x_i (firing i+2) happens at t0 + d(x_0) + ... + d(x_i) *)
+Theorem C37_gwrt_times : forall (c : Z -> bool) (f d : Z -> Z) init fuel nows t0,
+  let ws := while_states fuel c f init in
+  (length ws < fuel)%nat -> length nows = S (length ws) ->
+  let tr := fst (run (x_gwrt init (fun x => Ok (c x)) (fun x => Ok (f x)) (fun x => Ok (d x))) (tick_ins 0 nows)) in
+  on_time t0 tr nows ->
+  forall i, (i <= length ws)%nat -> firing_instant t0 nows (S i) = t0 + delays_sum d (firstn i ws).
+Proof. exact gwrt_times. Qed.
+Print Assumptions C37_gwrt_times.
+
+Theorem C37_gwrt_emission_instants : forall (c : Z -> bool) (f d : Z -> Z) init fuel nows t0,
+  let ws := while_states fuel c f init in
+  (length ws < fuel)%nat -> length nows = S (length ws) ->
+  let tr := fst (run (x_gwrt init (fun x => Ok (c x)) (fun x => Ok (f x)) (fun x => Ok (d x))) (tick_ins 0 nows)) in
+  on_time t0 tr nows ->
+  temitted tr = nexts (indexed 2 ws) ++ [(S (length ws), Done)]
+  /\ forall i, (i < length ws)%nat -> firing_instant t0 nows (2 + i) = t0 + delays_sum d (firstn (S i) ws).
+Proof. exact gwrt_emission_instants. Qed.
+Print Assumptions C37_gwrt_emission_instants.
+
+(* the hypotheses are satisfiable: states 0, 1, 2 with delays 10, 0, 30 from the subscription instant
+   100: firings at 100, 110, 110, 140 *)
+Example C37_gwrt_on_time_witness :
+  let c := fun x => x <? 3 in let f := fun x => x + 1 in
+  let d := fun x => if x =? 0 then 10 else if x =? 1 then 0 else 30 in
+  let nows := [100; 110; 110; 140] in
+  while_states 10 c f 0 = [0; 1; 2]
+  /\ on_time 100 (fst (run (x_gwrt 0 (fun x => Ok (c x)) (fun x => Ok (f x)) (fun x => Ok (d x))) (tick_ins 0 nows))) nows
+  /\ map (fun i => delays_sum d (firstn i [0; 1; 2])) [0; 1; 2; 3]%nat = [0; 10; 10; 40].
+Proof. vm_compute. split; [reflexivity|]. split; [repeat constructor|reflexivity]. Qed.
+
 (* zero delays are delays like any other (on the unpatched tree `assert time`
    raised AssertionError into the scheduler here) *)
 Example C37_gwrt_zero_delay :
@@ -141,6 +185,12 @@ Theorem C37_timer_emits_zero_at_d : forall d now,
 Proof. exact timer_spec. Qed.
 Print Assumptions C37_timer_emits_zero_at_d.
 
+(* ... and "at d": fired when due, the timer's firing instant is the subscription instant plus max(d, 0) *)
+Theorem C37_timer_instant : forall d now t0,
+  on_time t0 (fst (run (x_timer d) [(now, ITick 0%nat)])) [now] -> now = t0 + Z.max d 0.
+Proof. exact timer_instant. Qed.
+Print Assumptions C37_timer_instant.
+
 Theorem C37_timer_periodic : forall p nows,
   let tr := fst (run (x_timer_periodic p) (tick_ins 0 nows)) in
   temitted tr = nexts (indexed 1 (map Z.of_nat (seq 0 (length nows))))
@@ -155,6 +205,22 @@ Theorem C37_timer_with_period : forall d p n, 0 <= d -> 0 < p ->
   /\ ttimers tr = (0%nat, (0%nat, d)) :: map (fun j => (S j, (S j, p))) (seq 0 n).
 Proof. exact timer_period_spec. Qed.
 Print Assumptions C37_timer_with_period.
+
+(* timer(d, p), d <> p: the VALUES are 0, 1, 2, ... one per firing for ANY d, p and ANY clock
+   readings (late firings and the catch-up branch `dt + p <= now`, p <= 0 included); only the delays
+   of the theorem above need on-time firings *)
+Theorem C37_timer_period_values_any_clock : forall d p nows,
+  temitted (fst (run (x_timer_period d p) (tick_ins 0 nows)))
+  = nexts (indexed 1 (map Z.of_nat (seq 0 (length nows)))).
+Proof. exact timer_period_values_any_clock. Qed.
+Print Assumptions C37_timer_period_values_any_clock.
+
+(* a late second firing (at 100 instead of 12): the catch-up branch re-bases the due time *)
+Example C37_timer_period_catch_up :
+  run_canon (x_timer_period 5 7) (tick_ins 0 [5; 100; 107])
+  = [(0%nat, OTimer 0%nat 5); (1%nat, OEmit (Next 0)); (1%nat, OTimer 1%nat 7); (2%nat, OEmit (Next 1));
+     (2%nat, OTimer 2%nat 7); (3%nat, OEmit (Next 2)); (3%nat, OTimer 3%nat 7)].
+Proof. vm_compute. reflexivity. Qed.
 
 (* ---- repeat_value ------------------------------------------------------------- *)
 Theorem C37_repeat_value_emits_v_n_times : forall v c, 0 <= c ->
